@@ -14,7 +14,9 @@ Clause tokens
   RT1     RT_TIMES(hi)  (exactly hi)   RTAL  RT_TIMES(AT_LEAST(lo))   RTAM  RT_TIMES(AT_MOST(hi))
   T<l>_<h>, T<n>, AL<n>, AM<n>  compile-time TIMES forms
 Function codes: f = int f(int), s = int f(std::string const&) (overload),
-  g = int g(int,int) const, v = void v(int)
+  g = int g(int,int) const, v = void v(int), z = int z() (no parameter), h = int h(int, int, int) (the third
+  parameter is always matched by a run-time term that accepts everything), q = std::string q(int) (a movable class type
+  returned by value from an rvalue RETURN expression: "r" + the slot's return value)
 Parameter matcher forms (pm): 'rt' run-time term matcher (typed custom matcher
   wrapping the real trompeloeil comparison matchers), 'wild' = the `_`
   wildcard, 'lit1' = the literal value 1, 'any' = ANY(int)
@@ -22,8 +24,8 @@ Parameter matcher forms (pm): 'rt' run-time term matcher (typed custom matcher
 
 INF = 99          # JSON / TLA+ representation of "no upper bound"
 
-FN = {'f': 1, 's': 2, 'g': 3, 'v': 4}
-NPAR = {'f': 1, 's': 1, 'g': 2, 'v': 1}
+FN = {'f': 1, 's': 2, 'g': 3, 'v': 4, 'z': 5, 'h': 6, 'q': 7}
+NPAR = {'f': 1, 's': 1, 'g': 2, 'v': 1, 'z': 0, 'h': 3, 'q': 1}
 
 def S(id, fn, macro, cl, pm='rt', nm=False):
     return dict(id=id, fn=fn, macro=macro, cl=cl.split() if cl else [], pm=pm, nm=nm)
@@ -126,6 +128,22 @@ SHAPES = [
     S(123, 'f', 'REQ',    'RTAM R'),
     S(124, 'f', 'REQ',    'RT1 Q1 R'),
     S(125, 'v', 'REQ',    'RTAM Q1', pm='wild'),
+    # ---- arity 0 and arity 3
+    S(130, 'z', 'REQ',    'RT R'),
+    S(131, 'z', 'ALLOW',  'R'),
+    S(132, 'z', 'FORBID', ''),
+    S(133, 'z', 'REQ',    'Q1 RT R'),
+    S(134, 'z', 'REQ',    'S1 RT TH'),
+    S(135, 'h', 'REQ',    'RT R'),
+    S(136, 'h', 'REQ',    'W1 S1 RT R'),
+    S(137, 'h', 'ALLOW',  'R'),
+    S(138, 'h', 'FORBID', ''),
+    S(139, 'h', 'REQ',    'Q1 RT R'),
+    S(140, 'z', 'REQ',    'W1 RT R'),
+    S(142, 'q', 'REQ',    'RT R'),
+    S(143, 'q', 'ALLOW',  'R'),
+    S(144, 'q', 'REQ',    'S1 RT TH'),
+    S(141, 'z', 'ALLOW',  'LW1 W2 R'),
     # ---- a macro inside the call expression (ANY(int)): the expectation's text must stay as written, in every macro family
     S(126, 'f', 'FORBID', '',        pm='any'),
     S(127, 'f', 'REQ',    'RT R',    pm='any'),
@@ -133,6 +151,7 @@ SHAPES = [
 WATCHED_IDS = {110, 111, 112}
 RTFORM_IDS = set(range(120, 126))
 ANYFORM_IDS = {126, 127}
+ARITY_IDS = set(range(130, 145))
 NONMOVABLE_IDS = set(range(100, 106))
 SCOPED_IDS = set(range(70, 85)) | {105}
 
